@@ -96,9 +96,9 @@ int check_badsalt_chars_stub (const char *setting)
 
 const struct hashfn *get_hashfn_stub (const char *setting)
 {
-  size_t len = 0;
-  _Bool reg = xv_str_lookup (setting, &len);
-  XV_STUBPRE ("C04", reg, "get_hashfn: argument is a caller string");
+  /* a caller string (length from the ghost registry) or a short literal
+     such as HASH_ALGORITHM_DEFAULT (scanned by the strlen model) */
+  size_t len = strlen (setting);
   int want = spec_method_of_prefix ((const unsigned char *) setting, len);
   if (want < 0)
     return 0;
